@@ -17,7 +17,7 @@ of the input or at a `BigEqual` op (or, when the whole input is one change, `g =
 "For any valid op list and radius n [part (I): `ops`, `n`.  "Valid" is `AltOps ops` — no empty op and no two
 adjacent Equal ops; (V) shows that every valid script (`Walk`) whose Equal / non-Equal ops alternate satisfies it,
 (CAP) that whatever `capture_diff` returns does.  The clauses that hold for EVERY op list — (a), (b), (e), (e0),
-(f), (g) — are stated without it; (c), (d), (e1), (e2) have it as a visible hypothesis, and
+(f), (g), (g0), (g') — are stated without it; (c), (d), (e1), (e2) have it as a visible hypothesis, and
 `C12_altOps_needed` below is the recorded counterexample showing that (c) and (d) are false without it],
 grouping returns groups that are
 (a) each a contiguous run of ops [`ops = pre ++ mid ++ post ∧ GroupOf n pre mid post g`: only the first and the
@@ -40,7 +40,15 @@ grouping returns groups that are
     changes `c1`, `c2` with one Equal op of `len` items between them: `len ≤ 2n` — one group contains `c1`, the
     whole Equal op and `c2`; `2n < len` — `c1` ends one group, followed by `n` items of context, and `c2` starts the
     next group, preceded by the last `n` items; `changesOf (G1.flatten ++ s1) = changesOf pre` says that these are
-    the occurrences of `c1`, `c2` at that place; (g0): no Equal op between them — same group]."
+    the occurrences of `c1`, `c2` at that place; (g0): no Equal op between them — same group]
+(g') [the same for two ARBITRARY changes `c1`, `c2` with any ops `mid` between them,
+    `ops = pre ++ [c1] ++ mid ++ [c2] ++ post`: every Equal op of `mid` has at most `2n` items — one group contains
+    `c1`, the whole of `mid` and `c2`; some Equal op of `mid` has more than `2n` items — `c1` is in a group `g1` and
+    `c2` in a LATER group `g2` (`groupDiffOps ops n = G1 ++ [g1] ++ Gm ++ [g2] ++ G2`), where `g1` ends with the
+    first `n` items of the first such Equal op of `mid` and holds the ops of `mid` before it whole;
+    `changesOf (G1.flatten ++ s1) = changesOf pre` and
+    `changesOf ((G1 ++ [g1] ++ Gm).flatten ++ s2) = changesOf (pre ++ [c1] ++ mid)` say that these are the given
+    occurrences of `c1` (after `s1` in `g1`) and `c2` (after `s2` in `g2`).  No hypothesis on the op list]."
 
 (CAP), the hypothesis-free form: for every algorithm, shipped (`repair = false`) and repaired clean-up, every clock
 and in-bounds ranges (`os ≤ oe`, `ns ≤ ne`, `InBounds`: every cross comparison is defined; for Patience also the
@@ -49,8 +57,7 @@ for which all clauses hold for every radius, with no hypothesis on `ops`; additi
 valid script between its own end points (empty context ops, which `n = 0` produces, aside).
 
 Not covered by this theorem: nothing of the property text is false of the model or left out.  Remarks on the form:
-(g) is stated for CONSECUTIVE changes; for two arbitrary changes "same group" is the conjunction over the consecutive
-pairs between them (groups are contiguous and in order: (a), (b)), which is not stated separately.  (e1), (e2) are
+(g) is stated for CONSECUTIVE changes; the form for two ARBITRARY changes is clause (g').  (e1), (e2) are
 proved under `AltOps` (the existing theorems); the counterexample concerns (c) and (d) only. -/
 theorem C12_statement :
     -- (I) every op list, every radius
@@ -78,6 +85,18 @@ theorem C12_statement :
       (∀ pre post c1 c2, ops = pre ++ [c1, c2] ++ post → c1.tag ≠ .equal → c2.tag ≠ .equal →
         ∃ G1 s1 s2 G2, groupDiffOps ops n = G1 ++ [s1 ++ [c1, c2] ++ s2] ++ G2 ∧
           changesOf (G1.flatten ++ s1) = changesOf pre) ∧
+      -- (g') two arbitrary changes
+      (∀ pre mid post c1 c2, ops = pre ++ [c1] ++ mid ++ [c2] ++ post → c1.tag ≠ .equal → c2.tag ≠ .equal →
+        ((∀ x ∈ mid, x.tag = .equal → x.oLen ≤ 2 * n) → ∃ G1 s1 s2 G2,
+          groupDiffOps ops n = G1 ++ [s1 ++ [c1] ++ mid ++ [c2] ++ s2] ++ G2 ∧
+          changesOf (G1.flatten ++ s1) = changesOf pre) ∧
+        ((∃ x ∈ mid, x.tag = .equal ∧ 2 * n < x.oLen) → ∃ G1 g1 Gm g2 G2 s1 t1 s2 t2,
+          groupDiffOps ops n = G1 ++ [g1] ++ Gm ++ [g2] ++ G2 ∧
+          g1 = s1 ++ [c1] ++ t1 ∧ changesOf (G1.flatten ++ s1) = changesOf pre ∧
+          g2 = s2 ++ [c2] ++ t2 ∧
+          changesOf ((G1 ++ [g1] ++ Gm).flatten ++ s2) = changesOf (pre ++ [c1] ++ mid) ∧
+          (∃ m1 o m len m2, mid = m1 ++ .equal o m len :: m2 ∧ 2 * n < len ∧
+            (∀ y ∈ m1, y.tag = .equal → y.oLen ≤ 2 * n) ∧ t1 = m1 ++ [.equal o m n]))) ∧
       -- (e0)
       (∀ c rest, ops = c :: rest → c.tag ≠ .equal → ∃ s gs, groupDiffOps ops n = (c :: s) :: gs) ∧
       (∀ c pre, ops = pre ++ [c] → c.tag ≠ .equal → ∃ gs s, groupDiffOps ops n = gs ++ [s ++ [c]]) ∧
@@ -139,6 +158,9 @@ theorem C12_statement :
   refine ⟨fun ops n => ⟨group_groupOf ops n, C12.keeps_changes ops n, C12.equal_bounds ops n,
     fun pre post c1 c2 o m len h h1 h2 => C12.separation ops n pre post c1 c2 o m len h h1 h2,
     fun pre post c1 c2 h h1 h2 => C12.adjacent_changes ops n pre post c1 c2 h h1 h2,
+    fun pre mid post c1 c2 h h1 h2 =>
+      ⟨fun hm => C12.arbitrary_pair_same_group ops n pre mid post c1 c2 h h1 h2 hm,
+       fun hm => C12.arbitrary_pair_different_groups ops n pre mid post c1 c2 h h1 h2 hm⟩,
     fun c rest h hc => h ▸ group_leading_change n c rest hc,
     fun c pre h hc => h ▸ group_trailing_change n c pre hc,
     fun hv => ⟨C12.has_change ops n hv, C12.no_changes ops n hv,
